@@ -116,6 +116,14 @@ def op_variant(m, sg, op):
         v = np.frombuffer(np.asarray(m.buffers[t.buffer].data, dtype=np.uint8).tobytes(), dtype=dt)
         if v.size and int(np.max(np.abs(v.astype(np.float64)))) >= np.iinfo(dt).max - 1:
             var.append("bias-saturated")
+            # finding D25 is about weights whose OWN range is tiny; the reference formulas never give a weight a scale below
+            # (range floor 1e-4) / qmax -- a smaller one is another matter and must not hide behind D25
+            w = ins[1] if len(ins) > 1 else None
+            wq = None if w is None else w.quantization
+            if wq is not None and wq.scale is not None and len(wq.scale) and w.type in (TT.INT8, TT.INT4):
+                qmax = 127 if w.type == TT.INT8 else 7
+                if float(np.min(np.asarray(wq.scale, dtype=np.float64))) < (1e-4 / qmax) * (1 - 1e-3):
+                    var.append("weight-scale-below-the-range-floor")
     if "bias-saturated" not in var and name in ("CONV_2D", "DEPTHWISE_CONV_2D", "TRANSPOSE_CONV", "FULLY_CONNECTED"):
         # the kernel's fixed-point output multiplier input_scale*weight_scale/output_scale: TFLite's QuantizeMultiplier flushes a
         # multiplier below 2^-32 to ZERO (shift < -31), so the channel's output is the zero point whatever the accumulator holds
